@@ -35,6 +35,13 @@ type c12case struct {
 
 const chanID, tokID = 7, 9
 
+func nonNeg(n int) int {
+	if n < 0 {
+		return 0
+	}
+	return n
+}
+
 // runStream feeds the chunks to a real channel over TCP and collects what Receive returns.
 func runStream(kind string, mc, ms uint32, chunks []wchunk) ([]out, [][2]int) {
 	peer, conn := pair(defaultAck(65535, mc, ms))
@@ -119,7 +126,7 @@ func genConforming(r *rng.R, name string) c12case {
 	var todo []*pend
 	for i := 0; i < nmsg; i++ {
 		// svcBody adds 34 bytes: payloads that put the body exactly at, or a few bytes below, MaxMessageSize
-		pl := r.Bytes(r.Pick(0, 1, 5, 17, 40, r.Intn(int(c.MS)-40), int(c.MS)-34, int(c.MS)-35, int(c.MS)-34-r.Intn(30)))
+		pl := r.Bytes(r.Pick(0, 1, 5, 17, 40, r.Intn(int(c.MS)-40), int(c.MS)-34, int(c.MS)-35, nonNeg(int(c.MS)-34-r.Intn(30))))
 		body := svcBody(uint32(100+i), pl)
 		if len(body) > int(c.MS) {
 			body = svcBody(uint32(100+i), pl[:0])
